@@ -809,7 +809,14 @@ fn parse_and_verify_peer_id(
             tracing::debug!(target: LOG_TARGET, "payload without signature");
         })?;
 
-    let peer_id = PeerId::from_public_key_protobuf(&identity);
+    // The peer ID is the hash of the canonical protobuf encoding of the identity key. Protobuf
+    // decoding is lenient (field order, unknown fields, non-minimal varints), so hash the
+    // re-encoded key: the received bytes may be a non-canonical encoding which the verified
+    // key does not hash to.
+    let canonical_identity = crate::crypto::keys_proto::PublicKey::decode(identity.as_slice())
+        .map_err(ParseError::from)?
+        .encode_to_vec();
+    let peer_id = PeerId::from_public_key_protobuf(&canonical_identity);
 
     if !remote_public_key.verify(
         &[STATIC_KEY_DOMAIN.as_bytes(), dh_remote_pubkey].concat(),
